@@ -23,7 +23,7 @@ PROPS['C12'] = dict(
                  'kit numbers 128..255 cannot be created through OPN2_BankId (lsb <= 127): they are only installed through the WOPN route',
                  'drum keys >= 128 and melodic slots with a drum key are not generated (the statement does not define them)'],
     stages=[
-        dict(name='hist', variant='asan', harness='c12_banksel.cpp', quick=8000, thorough=96000, budget=60),
+        dict(name='hist', variant='asan', harness='c12_banksel.cpp', quick=30000, thorough=300000, budget=60),
         dict(name='memcheck', variant='plain-d', harness='c12_banksel.cpp', quick=1000, thorough=20000, budget=150, wall=2400, **{'as': 'hist'},
              wrapper=['valgrind', '-q', '--error-exitcode=79', '--exit-on-first-error=yes', '--track-origins=no', '--leak-check=no']),
     ],
